@@ -8,6 +8,7 @@
 //!   oracle.txt  `<op index>\t<class>\t<detail>` per oracle failure
 //!   dist.json   evaluations, distinct non-trivial cases, counters (input distribution), samples
 mod common;
+mod shapes;
 mod m_adapters;
 mod m_circle;
 mod m_color;
@@ -32,6 +33,26 @@ mod m_tri;
 
 use common::*;
 use std::io::Write;
+
+#[global_allocator]
+static GLOBAL: CountingAlloc = CountingAlloc;
+
+/// `file:line: <source text of that line>` of the last panic, so that a panic can be classified by
+/// the expression that raised it (robust against line shifts elsewhere in the file).
+fn panic_site(loc: &std::panic::Location) -> String {
+    let file = loc.file();
+    // path relative to the repository root, wherever the repository lives
+    let short = match (file.find("/core/src/"), file.find("/src/")) {
+        (Some(i), _) => &file[i + 1..],
+        (None, Some(i)) if !file.starts_with("/rustc/") => &file[i + 1..],
+        _ => file,
+    };
+    let text = std::fs::read_to_string(file)
+        .ok()
+        .and_then(|s| s.lines().nth(loc.line() as usize - 1).map(|l| l.trim().to_string()))
+        .unwrap_or_default();
+    format!("{}: {}", short, text)
+}
 
 fn modules() -> Vec<Box<dyn Module>> {
     vec![
@@ -123,7 +144,14 @@ fn main() {
     }
 
     // quiet panics: they are results here (`panic:<message>`), not crashes
-    std::panic::set_hook(Box::new(|_| {}));
+    std::panic::set_hook(Box::new(|info| {
+        alloc_arm(false);
+        let site = info.location().map(panic_site).unwrap_or_default();
+        if std::env::var_os("EGV_BACKTRACE").is_some() {
+            eprintln!("panic: {}\n{}", info, std::backtrace::Backtrace::force_capture());
+        }
+        PANIC_LOC.with(|l| *l.borrow_mut() = site);
+    }));
 
     let mut ops: Vec<String> = Vec::new();
     if let Some(f) = ops_file {
@@ -174,15 +202,19 @@ fn main() {
                         } else {
                             "?".to_string()
                         };
-                        format!("panic:{}", msg.replace(['\n', '\t'], " "))
+                        alloc_arm(false);
+                        let site = PANIC_LOC.with(|l| l.borrow().clone());
+                        format!("panic:{} @ {}", msg.replace(['\n', '\t'], " "), site.replace(['\n', '\t'], " "))
                     }
                 }
             }
         };
         if res.starts_with("panic:") {
             ctx.count("result:panic");
-            // a panic that the module did not turn into a result itself is always an oracle failure
-            ctx.fail("panic", res.clone());
+            // a panic that the module did not turn into a result itself is always an oracle failure;
+            // the class names the panic site (file + source text of the panicking line)
+            let site = res.split(" @ ").nth(1).unwrap_or("").to_string();
+            ctx.fail(&format!("panic@{}", site), res.clone());
         }
         writeln!(f_ops, "{}", op).unwrap();
         writeln!(f_impl, "{}", res).unwrap();
